@@ -898,6 +898,15 @@ func (rn *runner) evalDir(td *TestDir, seed uint64, only *request, report bool) 
 						rn.res.Count("concurrent-request")
 						rn.res.Case(fmt.Sprintf("c|%d|%s|%d", rn.ndir, jb.q.URL, k), true)
 					}
+					if !td.Clean {
+						// with "_" two requests can alias one archive under two names; the zip cache then
+						// keeps the first requester's prefix and the responses legitimately depend on
+						// the schedule (C20_alias_history_dependent): exercised under -race, not compared
+						if report {
+							rn.res.Count("concurrent-request:not-compared(aliasing possible)")
+						}
+						continue
+					}
 					if ob != seqObs {
 						fail("impl-violation", "concurrent-same", jb.q.URL, "", clip([]byte(ob)), "a concurrent first request got a response different from the sequential one: "+clip([]byte(seqObs)))
 						break
